@@ -27,6 +27,7 @@ pub struct PpCfg {
     pub max_depth: usize,
     /// include file names that exist in several include directories
     pub multi_dir: bool,
+    pub cond_weight: usize,
 }
 
 impl PpCfg {
@@ -46,6 +47,7 @@ impl PpCfg {
             max_items: 10,
             max_depth: 3,
             multi_dir: true,
+            cond_weight: 3,
         }
     }
 }
@@ -446,7 +448,7 @@ impl<'a, 'b> G<'a, 'b> {
         } else {
             None
         };
-        let mut d = MacroDef { name: name.to_string(), formals, body, trailing_comment };
+        let mut d = MacroDef { id: self.uid(), name: name.to_string(), formals, body, trailing_comment };
         if body_has_btstring(&d) {
             // defaults are substituted like actuals: inside `"…`" / next to `` only plain tokens are sound
             for f in d.formals.iter_mut() {
@@ -604,7 +606,7 @@ impl<'a, 'b> G<'a, 'b> {
                 if self.cfg.macros { 5 } else { 0 },
                 if self.cfg.macros { 5 } else { 0 },
                 if self.cfg.macros { 1 } else { 0 },
-                if self.cfg.conds && depth > 0 { 3 } else { 0 },
+                if self.cfg.conds && depth > 0 { self.cfg.cond_weight } else { 0 },
                 if self.cfg.includes && depth > 0 { 2 } else { 0 },
                 if self.cfg.kept { 1 } else { 0 },
                 if self.cfg.position { 1 } else { 0 },
@@ -674,6 +676,7 @@ impl<'a, 'b> G<'a, 'b> {
                             let mname = "INCF".to_string();
                             *m = mname.clone();
                             let d = MacroDef {
+                                id: self.uid(),
                                 name: mname.clone(),
                                 formals: vec![],
                                 body: Some(vec![BodyTok::Str(format!("\"{}\"", name))]),
@@ -770,6 +773,11 @@ impl<'a, 'b> G<'a, 'b> {
 }
 
 fn ensure_trailing_newline(out: &mut Vec<Item>) {
+    if out.is_empty() {
+        // first item of a branch / file: the line may be shared with the `ifdef header, so start a fresh line
+        out.push(Item::Text(vec![(Piece::BlockComment("/* nl */".to_string()), "\n".to_string())]));
+        return;
+    }
     let needs = match out.last() {
         None => false,
         Some(Item::Text(ps)) => !ps.last().map(|p| p.1.ends_with('\n') || p.0.text().ends_with('\n')).unwrap_or(true),
@@ -851,6 +859,7 @@ pub fn generate(t: &mut Tape, cfg: &PpCfg, dir: &str) -> Case {
             } else {
                 let mut d = g.macro_def(&name, false);
                 d.trailing_comment = None;
+                d.id = 0;
                 initial.insert(name.clone(), Some(MDef { def: d, origin: DefOrigin::Caller }));
             }
         }
